@@ -234,8 +234,8 @@ pub fn run_sequence(n: usize, seq: &[(usize, Cmd)], w: Waits, blocked_observatio
         }
         loop {
             let cand: Vec<usize> = (0..n).filter(|&x| m.can_complete(x)).collect();
+            let claimers = m.claim_only();
             if cand.is_empty() {
-                let claimers = m.claim_only();
                 if claimers.len() > 1 {
                     outcome = Some(Outcome::Ambiguous);
                     break 'seq;
@@ -245,7 +245,19 @@ pub fn run_sequence(n: usize, seq: &[(usize, Cmd)], w: Waits, blocked_observatio
                     continue;
                 }
             }
-            let next = if early.is_empty() { real.done.recv_timeout(if cand.is_empty() { w.neg } else { w.pos }).map_err(|_| ()) } else { Ok(early.remove(0)) };
+            // The table enables alternatives (a call that would return, and a parked writer that would only claim the writer
+            // bit); the real lock takes one of them (it wakes parked threads in arrival order). If nothing returns although a
+            // call could, the unobservable alternative was taken: the observation has to fit *some* choice of the table.
+            let wait = if cand.is_empty() || !claimers.is_empty() { w.neg } else { w.pos };
+            let next = if early.is_empty() { real.done.recv_timeout(wait).map_err(|_| ()) } else { Ok(early.remove(0)) };
+            if next.is_err() && !cand.is_empty() && !claimers.is_empty() {
+                if claimers.len() > 1 {
+                    outcome = Some(Outcome::Ambiguous);
+                    break 'seq;
+                }
+                m.advance(claimers[0]);
+                continue;
+            }
             match next {
                 Ok(x) => {
                     if !m.can_complete(x) {
